@@ -76,9 +76,17 @@ function requests(c) {
 
 function abstain(c) {
   if (c.sp !== 'A') return false;
-  // statement defines mergeProps=off and transformOn separately but not listener collisions between them
-  if (c.o.transformOn && !c.o.mergeProps && c.attrs.includes('on') &&
-      c.attrs.some((a) => ['onClick1', 'onClick2', 'sp1', 'sp2', 'spCall'].includes(a))) return true;
+  // the statement defines mergeProps=off and transformOn separately but not listener collisions between them
+  if (c.o.transformOn && !c.o.mergeProps) {
+    const env = E.makeEnv();
+    const contribs = c.attrs.map((k) => E.ATTRS[k].m(env, c.o));
+    const onKeys = new Set();
+    for (const x of contribs) if (x.kind === 'on') for (const k of Object.keys(V.transformOn(x.obj))) onKeys.add(k);
+    if (onKeys.size) for (const x of contribs) {
+      const keys = x.kind === 'prop' ? [x.key] : x.kind === 'spread' ? Object.keys(x.obj) : [];
+      if (keys.some((k) => onKeys.has(k))) return true;
+    }
+  }
   return false;
 }
 
